@@ -231,3 +231,749 @@ func isQueueHelper(h *FuncInfo) bool {
 	})
 	return res
 }
+
+// ---------------------------------------------------------------------------
+// round 11
+
+func init() {
+	Register(&Rule{
+		Name:  "R-BROADCAST-UNADDRESSED-ONLY",
+		Props: []string{"C10"},
+		Min:   1,
+		Doc: "the server broadcasts a client's message only when the message names no addressee: every call of Hub.BroadcastExcept / Hub.Broadcast with a forwarded client envelope in handleWebSocket is reached only where `env.To == \"\"` is known " +
+			"(the else branch of `env.To != \"\"` and nothing else) - a routing test narrowed by a further conjunct (`&& env.To != peerID`) sends the messages it no longer covers to everybody but the peer they name",
+		Run: runBroadcastUnaddressedOnly,
+	})
+	Register(&Rule{
+		Name:  "R-PONG-EXTENDS-DEADLINE",
+		Props: []string{"C16"},
+		Min:   1,
+		Doc: "where the server arms a read deadline from the idle timeout it also installs a pong handler that pushes that deadline (gorilla consumes pong frames inside ReadMessage: the read loop never sees them): " +
+			"in every function that calls SetReadDeadline with the idle-timeout limit on a websocket connection there is a SetPongHandler on that connection whose function calls SetReadDeadline with the same limit - " +
+			"otherwise a peer that only waits (a host without receivers) is cut off one idle timeout after its last data frame although it answers every ping, and its session goes with it",
+		Run: runPongExtendsDeadline,
+	})
+}
+
+func runBroadcastUnaddressedOnly(c *Ctx) {
+	p := c.P
+	ws := p.Func("cmd/thruserv.handleWebSocket")
+	if ws == nil {
+		c.MissingAnchor("cmd/thruserv.handleWebSocket")
+		return
+	}
+	info := ws.Info()
+	var isTo func(e ast.Expr) bool
+	isTo = func(e ast.Expr) bool {
+		if id, ok := ast.Unparen(e).(*ast.Ident); ok {
+			// a local copy of the field
+			n := 0
+			for _, d := range resolveExprs(ws, id, 2) {
+				if _, same := ast.Unparen(d).(*ast.Ident); same {
+					continue
+				}
+				if !isTo(d) {
+					return false
+				}
+				n++
+			}
+			return n > 0
+		}
+		sel, ok := ast.Unparen(e).(*ast.SelectorExpr)
+		if !ok || sel.Sel.Name != "To" {
+			return false
+		}
+		t := info.TypeOf(sel.X)
+		return t != nil && strings.HasSuffix(strings.TrimPrefix(t.String(), "*"), "protocol.Envelope")
+	}
+	spec := &PassSpec{Name: "unaddressed", SkipDefer: true, Vias: []Via{{Cond: func(g *FuncInfo, e ast.Expr) (string, bool, bool) {
+		be, ok := ast.Unparen(e).(*ast.BinaryExpr)
+		if !ok || (be.Op != token.EQL && be.Op != token.NEQ) {
+			return "", false, false
+		}
+		var other ast.Expr
+		switch {
+		case isTo(be.X):
+			other = be.Y
+		case isTo(be.Y):
+			other = be.X
+		default:
+			return "", false, false
+		}
+		if s, ok := constString(g.Info(), other); !ok || s != "" {
+			return "", false, false
+		}
+		return "to-empty", be.Op == token.EQL, true
+	}}}}
+	spec.Kill = func(g *FuncInfo, n ast.Node) []string {
+		if as, ok := n.(*ast.AssignStmt); ok {
+			for _, l := range as.Lhs {
+				if isTo(l) {
+					return []string{"to-empty"}
+				}
+			}
+		}
+		return nil
+	}
+	n := 0
+	ws.CFG().Calls(func(r NodeRef, call *ast.CallExpr) {
+		f := Callee(info, call)
+		if f == nil || !(f.Name() == "BroadcastExcept" || f.Name() == "Broadcast") || f.Pkg() == nil || !strings.HasSuffix(f.Pkg().Path(), "internal/peers") {
+			return
+		}
+		// only broadcasts of the client's own envelope (the one whose To was tested); server notices are not routed
+		forwarded := false
+		for _, a := range call.Args {
+			if t := info.TypeOf(a); t != nil && strings.HasSuffix(t.String(), "protocol.Envelope") {
+				if o := rootObj(info, a); o != nil && o.Name() == "env" {
+					forwarded = true
+				}
+			}
+		}
+		if !forwarded {
+			return
+		}
+		n++
+		c.Check(spec.Passed(ws, r, "to-empty"), fmt.Sprintf("broadcast-unaddressed/%s#%d", f.Name(), n), call.Pos(), "a client's message is broadcast only when it names nobody",
+			"handleWebSocket can reach "+f.Name()+" with the client's envelope on a path where env.To == \"\" is not known: a message that names an addressee is delivered to every other peer of the session and not to the peer it names")
+	})
+	if n == 0 {
+		c.Bad("broadcast-unaddressed/none", ws.Pos(), "found no broadcast of the client's envelope in handleWebSocket")
+	}
+}
+
+func runPongExtendsDeadline(c *Ctx) {
+	p := c.P
+	n := 0
+	for _, f := range p.Funcs() {
+		if f.Decl == nil || f.Body == nil || !strings.Contains(p.Fset.Position(f.Pos()).Filename, "/cmd/thruserv/") || strings.HasSuffix(p.Fset.Position(f.Pos()).Filename, "_test.go") {
+			continue
+		}
+		info := f.Info()
+		// SetReadDeadline(<now>.Add(<limit field>)) directly in f: conn object and the limit's text
+		type armed struct {
+			conn  types.Object
+			limit string
+			pos   token.Pos
+		}
+		var arms []armed
+		deadlineArg := func(call *ast.CallExpr) (types.Object, string, bool) {
+			sel, ok := ast.Unparen(call.Fun).(*ast.SelectorExpr)
+			if !ok || sel.Sel.Name != "SetReadDeadline" || len(call.Args) != 1 {
+				return nil, "", false
+			}
+			add, ok := ast.Unparen(call.Args[0]).(*ast.CallExpr)
+			if !ok || len(add.Args) != 1 {
+				return nil, "", false
+			}
+			if s2, ok := ast.Unparen(add.Fun).(*ast.SelectorExpr); !ok || s2.Sel.Name != "Add" {
+				return nil, "", false
+			}
+			lim := types.ExprString(add.Args[0])
+			if !strings.Contains(strings.ToLower(lim), "idle") {
+				return nil, "", false
+			}
+			return rootObj(info, sel.X), lim, true
+		}
+		InspectNoLits(f.Body, func(m ast.Node) bool {
+			if call, ok := m.(*ast.CallExpr); ok {
+				if o, lim, ok := deadlineArg(call); ok && o != nil {
+					arms = append(arms, armed{o, lim, call.Pos()})
+				}
+			}
+			return true
+		})
+		seen := map[types.Object]bool{}
+		for _, a := range arms {
+			if seen[a.conn] {
+				continue
+			}
+			seen[a.conn] = true
+			n++
+			good := false
+			ast.Inspect(f.Body, func(m ast.Node) bool {
+				call, ok := m.(*ast.CallExpr)
+				if !ok || len(call.Args) != 1 {
+					return true
+				}
+				sel, ok := ast.Unparen(call.Fun).(*ast.SelectorExpr)
+				if !ok || sel.Sel.Name != "SetPongHandler" || rootObj(info, sel.X) != a.conn {
+					return true
+				}
+				var body *ast.BlockStmt
+				if lit, ok := ast.Unparen(call.Args[0]).(*ast.FuncLit); ok {
+					body = lit.Body
+				} else if h := p.CalleeInfo(info, &ast.CallExpr{Fun: call.Args[0]}); h != nil {
+					body = h.Body
+				}
+				if body == nil {
+					return true
+				}
+				ast.Inspect(body, func(k ast.Node) bool {
+					if c2, ok := k.(*ast.CallExpr); ok {
+						if o, lim, ok := deadlineArg(c2); ok && o == a.conn && lim == a.limit {
+							// not under a condition of its own
+							good = true
+						}
+					}
+					return true
+				})
+				return true
+			})
+			c.Check(good, fmt.Sprintf("pong-extends/%s/%s", f.Name, a.conn.Name()), a.pos, "the idle deadline is pushed by pongs too",
+				f.Name+" arms a read deadline of "+a.limit+" on "+a.conn.Name()+" but installs no pong handler that pushes it: the websocket library consumes pong frames inside ReadMessage, so the read loop never extends the deadline for them - "+
+					"a peer that only waits is disconnected one idle timeout after its last data frame although it answers every ping (a host loses its session)")
+		}
+	}
+	if n == 0 {
+		c.Bad("pong-extends/none", token.NoPos, "found no SetReadDeadline armed from an idle-timeout limit in cmd/thruserv")
+	}
+}
+
+func init() {
+	Register(&Rule{
+		Name:  "R-OUTPUT-OPEN-NONBLOCKING",
+		Props: []string{"C02"},
+		Min:   2,
+		Doc: "an output path that cannot be written fails, it does not block: every os.OpenFile in the non-test code of internal/transfer that may create its file (O_CREATE among the flags) opens it O_RDWR (or O_NONBLOCK) - " +
+			"a write-only open of a FIFO that happens to sit at the output path blocks until somebody reads it, inside the receive loop and deaf to cancellation, and the sender waits with it; opened for reading and writing it returns at once and the Truncate behind it fails",
+		Run: runOutputOpenNonblocking,
+	})
+}
+
+func runOutputOpenNonblocking(c *Ctx) {
+	p := c.P
+	n := 0
+	per := map[string]int{}
+	for _, f := range p.FuncsIn("internal/transfer") {
+		if f.Body == nil || strings.HasSuffix(p.Fset.Position(f.Pos()).Filename, "_test.go") {
+			continue
+		}
+		info := f.Info()
+		InspectNoLits(f.Body, func(m ast.Node) bool {
+			call, ok := m.(*ast.CallExpr)
+			if !ok || !calleeIs(info, call, "os", "OpenFile") || len(call.Args) != 3 {
+				return true
+			}
+			names := map[string]bool{}
+			for _, e := range resolveExprs(f, call.Args[1], 2) {
+				ast.Inspect(e, func(k ast.Node) bool {
+					switch x := k.(type) {
+					case *ast.SelectorExpr:
+						names[x.Sel.Name] = true
+					case *ast.Ident:
+						if cst, ok := info.ObjectOf(x).(*types.Const); ok {
+							names[cst.Name()] = true
+						}
+					}
+					return true
+				})
+			}
+			if !names["O_CREATE"] {
+				return true
+			}
+			n++
+			per[f.Name]++
+			c.Check(names["O_RDWR"] || names["O_NONBLOCK"], fmt.Sprintf("output-open/%s#%d", f.Name, per[f.Name]), call.Pos(), "a created output file is opened for reading and writing",
+				f.Name+" opens an output path with O_CREATE but neither O_RDWR nor O_NONBLOCK: when the path is a FIFO the open blocks until a reader appears - the receiver sits in it, does not see its context end, and the sender waits with it")
+			return true
+		})
+	}
+	if n == 0 {
+		c.Bad("output-open/none", token.NoPos, "found no os.OpenFile with O_CREATE in internal/transfer")
+	}
+}
+
+func init() {
+	Register(&Rule{
+		Name:  "R-DERIVED-CTX-IN-WORKERS",
+		Props: []string{"C02", "C03"},
+		Min:   2,
+		Doc: "the goroutines and helper closures of a transfer watch the transfer's own context: in SendManifestMultiStream and RecvManifestMultiStream, which derive a cancellable context from their context parameter (X, cancel := context.WithCancel(ctx)), " +
+			"no function literal behind the derivation refers to the parameter itself - an error recorded by one worker cancels the derived context, and a worker (or a helper it calls) that waits on the caller's context instead never sees it: " +
+			"wg.Wait does not return, the streams stay open and the peer hangs too",
+		Run: runDerivedCtxInWorkers,
+	})
+}
+
+func runDerivedCtxInWorkers(c *Ctx) {
+	p := c.P
+	n := 0
+	for _, f := range p.FuncsIn("internal/transfer") {
+		if f.Decl == nil || f.Body == nil || strings.HasSuffix(p.Fset.Position(f.Pos()).Filename, "_test.go") {
+			continue
+		}
+		// the two entry points the binaries call; the single-stream variants (tests only) derive a context for their reader alone
+		if f.Name != "transfer.SendManifestMultiStream" && f.Name != "transfer.RecvManifestMultiStream" {
+			continue
+		}
+		info := f.Info()
+		// the derivation, directly in f's body
+		var parent types.Object
+		var derivedName string
+		var at token.Pos
+		InspectNoLits(f.Body, func(m ast.Node) bool {
+			as, ok := m.(*ast.AssignStmt)
+			if !ok || len(as.Rhs) != 1 || len(as.Lhs) != 2 || at != token.NoPos {
+				return true
+			}
+			call, ok := ast.Unparen(as.Rhs[0]).(*ast.CallExpr)
+			if !ok || !calleeIs(info, call, "context", "WithCancel") || len(call.Args) != 1 {
+				return true
+			}
+			o := ObjOf(info, call.Args[0])
+			if o == nil {
+				return true
+			}
+			isParam := false
+			for k := 0; ; k++ {
+				po := paramObj(f, k)
+				if po == nil {
+					break
+				}
+				if po == o {
+					isParam = true
+				}
+			}
+			if isParam {
+				parent, derivedName, at = o, types.ExprString(as.Lhs[0]), as.Pos()
+			}
+			return true
+		})
+		if parent == nil {
+			continue
+		}
+		n++
+		var bad []token.Pos
+		for _, k := range allKids(f) {
+			if k.Lit == nil || k.Lit.Pos() < at {
+				continue
+			}
+			InspectNoLits(k.Body, func(m ast.Node) bool {
+				if id, ok := m.(*ast.Ident); ok && info.Uses[id] == parent {
+					bad = append(bad, id.Pos())
+				}
+				return true
+			})
+		}
+		if len(bad) == 0 {
+			c.OK("derived-ctx/"+f.Name, at, "no closure behind the derivation of "+derivedName+" refers to the caller's context")
+			continue
+		}
+		for i, pos := range bad {
+			c.Bad(fmt.Sprintf("derived-ctx/%s#%d", f.Name, i+1), pos, "a closure of "+f.Name+" refers to the caller's context "+parent.Name()+" although the transfer runs under "+derivedName+
+				": when another worker records an error and cancels "+derivedName+", this one goes on waiting - the function's wait for its workers never ends, the streams stay open and the peer hangs as well")
+		}
+	}
+	if n == 0 {
+		c.Bad("derived-ctx/none", token.NoPos, "found no function in internal/transfer that derives a cancellable context from its context parameter")
+	}
+}
+
+func init() {
+	Register(&Rule{
+		Name:  "R-CHUNKS-INDEXED",
+		Props: []string{"C19", "C01"},
+		Min:   1,
+		Doc: "a file's chunks are counted by index: where the multiplexed receiver registers a file's state (stateByKey[key] = state) every path has attached resume metadata to it (state.sidecar assigned), given it an index bitmap (state.seen assigned), " +
+			"or found the file beyond the size for which an index is kept (the false edge of `state.sidecar == nil && totalChunks <= maxResumeChunks`) - a state with neither counts frames, so a peer that sends one chunk twice and another never gets the file acknowledged with a hole in it",
+		Run: runChunksIndexed,
+	})
+}
+
+func runChunksIndexed(c *Ctx) {
+	p := c.P
+	recv := p.Func("transfer.RecvManifestMultiStream")
+	if recv == nil {
+		c.MissingAnchor("transfer.RecvManifestMultiStream")
+		return
+	}
+	n := 0
+	for _, f := range allKids(recv) {
+		if f.Lit == nil {
+			continue
+		}
+		info := f.Info()
+		isStateField := func(e ast.Expr, name string) bool {
+			sel, ok := ast.Unparen(e).(*ast.SelectorExpr)
+			if !ok || sel.Sel.Name != name {
+				return false
+			}
+			t := info.TypeOf(sel.X)
+			return t != nil && strings.HasSuffix(t.String(), "recvFileStateMux")
+		}
+		spec := &PassSpec{Name: "indexed", SkipDefer: true, Vias: []Via{
+			{Stmt: func(g *FuncInfo, nd ast.Node) (string, bool) {
+				if as, ok := nd.(*ast.AssignStmt); ok {
+					for i, l := range as.Lhs {
+						if isStateField(l, "sidecar") || isStateField(l, "seen") {
+							if len(as.Rhs) == len(as.Lhs) && types.ExprString(as.Rhs[i]) == "nil" {
+								continue
+							}
+							return "indexed", true
+						}
+					}
+				}
+				return "", false
+			}},
+			{Cond: func(g *FuncInfo, e ast.Expr) (string, bool, bool) {
+				// `state.sidecar == nil && totalChunks <= maxResumeChunks`: false means metadata attached or no index kept for this size
+				var conj []ast.Expr
+				var split func(x ast.Expr)
+				split = func(x ast.Expr) {
+					if be, ok := ast.Unparen(x).(*ast.BinaryExpr); ok && be.Op == token.LAND {
+						split(be.X)
+						split(be.Y)
+						return
+					}
+					conj = append(conj, ast.Unparen(x))
+				}
+				split(e)
+				if len(conj) == 0 {
+					return "", false, false
+				}
+				for _, cj := range conj {
+					be, ok := cj.(*ast.BinaryExpr)
+					if !ok {
+						return "", false, false
+					}
+					switch {
+					case be.Op == token.EQL && (isStateField(be.X, "sidecar") || isStateField(be.X, "seen")) && types.ExprString(be.Y) == "nil":
+					case (be.Op == token.LEQ || be.Op == token.LSS) && strings.Contains(types.ExprString(be.Y), "maxResumeChunks"):
+					default:
+						return "", false, false
+					}
+				}
+				return "indexed", false, true
+			}},
+		}}
+		f.CFG().EachNode(func(r NodeRef) {
+			as, ok := r.Node().(*ast.AssignStmt)
+			if !ok || len(as.Lhs) != 1 {
+				return
+			}
+			ix, ok := ast.Unparen(as.Lhs[0]).(*ast.IndexExpr)
+			if !ok || types.ExprString(ix.X) != "stateByKey" {
+				return
+			}
+			n++
+			c.Check(spec.Passed(f, r, "indexed"), fmt.Sprintf("chunks-indexed/%s#%d", f.Name, n), as.Pos(), "a registered file has resume metadata or an index bitmap",
+				f.Name+" registers a file's state on a path that has neither attached resume metadata nor an index bitmap to it: its chunks are then counted per frame, "+
+					"and a peer that sends a chunk twice and another never completes the file with a hole in it")
+		})
+	}
+	if n == 0 {
+		c.Bad("chunks-indexed/none", recv.Pos(), "found no `stateByKey[key] = state` in the closures of RecvManifestMultiStream")
+	}
+}
+
+func init() {
+	Register(&Rule{
+		Name:  "R-DUMB-WRITE-CANCELLABLE",
+		Props: []string{"C12"},
+		Min:   2,
+		Doc: "a cancelled transfer stops moving bytes (F79): sendDumbDataWriter takes no context, so every call of it in internal/app writes either to a stream opened with the transfer's context on a connection (whose closer the scheduler holds), " +
+			"or to a connection for which every path to the call has passed context.AfterFunc(<the function's context>, <a function that closes that connection>) - " +
+			"with --dumb-tcp a receiver that left was marked failed and its slot given away while its stream went on: two transfers with --max-receivers 1",
+		Run: runDumbWriteCancellable,
+	})
+}
+
+func runDumbWriteCancellable(c *Ctx) {
+	p := c.P
+	writer := p.Func("app.sendDumbDataWriter")
+	if writer == nil {
+		c.MissingAnchor("app.sendDumbDataWriter")
+		return
+	}
+	n := 0
+	perFn := map[string]int{}
+	for _, f := range p.FuncsIn("internal/app") {
+		if f.Body == nil || f == writer || strings.HasSuffix(p.Fset.Position(f.Pos()).Filename, "_test.go") {
+			continue
+		}
+		info := f.Info()
+		var ctxObj types.Object
+		for k := 0; ; k++ {
+			po := paramObj(f, k)
+			if po == nil {
+				break
+			}
+			if po.Type().String() == "context.Context" {
+				ctxObj = po
+			}
+		}
+		closes := func(lit *ast.FuncLit, target types.Object) bool {
+			hit := false
+			ast.Inspect(lit.Body, func(m ast.Node) bool {
+				if call, ok := m.(*ast.CallExpr); ok {
+					if sel, ok := ast.Unparen(call.Fun).(*ast.SelectorExpr); ok && sel.Sel.Name == "Close" && rootObj(info, sel.X) == target {
+						hit = true
+					}
+				}
+				return true
+			})
+			return hit
+		}
+		f.CFG().Calls(func(r NodeRef, call *ast.CallExpr) {
+			if p.CalleeInfo(info, call) != writer || len(call.Args) == 0 {
+				return
+			}
+			n++
+			perFn[f.Name]++
+			w := rootObj(info, call.Args[0])
+			key := fmt.Sprintf("dumb-write/%s#%d", f.Name, perFn[f.Name])
+			if w == nil || ctxObj == nil {
+				c.Bad(key, call.Pos(), f.Name+" hands sendDumbDataWriter a writer the checker cannot name, or has no context parameter: nothing can stop the write when the transfer is cancelled")
+				return
+			}
+			// a stream opened with the context
+			viaStream := false
+			for _, d := range resolveExprs(f, call.Args[0], 2) {
+				if oc, ok := ast.Unparen(d).(*ast.CallExpr); ok {
+					if sel, ok := ast.Unparen(oc.Fun).(*ast.SelectorExpr); ok && sel.Sel.Name == "OpenStream" && len(oc.Args) == 1 && ObjOf(info, oc.Args[0]) == ctxObj {
+						viaStream = true
+					}
+				}
+			}
+			if viaStream {
+				c.OK(key, call.Pos(), "writes to a stream opened with the transfer's context")
+				return
+			}
+			spec := &PassSpec{Name: "closer", SkipDefer: true, Vias: []Via{{Call: func(g *FuncInfo, c2 *ast.CallExpr) (string, bool) {
+				if calleeIs(info, c2, "context", "AfterFunc") && len(c2.Args) == 2 && ObjOf(info, c2.Args[0]) == ctxObj {
+					if lit, ok := ast.Unparen(c2.Args[1]).(*ast.FuncLit); ok && closes(lit, w) {
+						return "closer", true
+					}
+				}
+				return "", false
+			}, Immediate: true}}}
+			c.Check(spec.Passed(f, r, "closer"), key, call.Pos(), "the connection is closed when the transfer's context ends",
+				f.Name+" writes to "+w.Name()+" through sendDumbDataWriter, which takes no context, and no context.AfterFunc("+ctxObj.Name()+", close "+w.Name()+") lies on every path to the call: "+
+					"a receiver that leaves is marked failed and its slot goes to the next one while this write goes on - more simultaneous transfers than max-receivers")
+		})
+	}
+	if n == 0 {
+		c.Bad("dumb-write/none", writer.Pos(), "nothing in internal/app calls sendDumbDataWriter")
+	}
+}
+
+func init() {
+	Register(&Rule{
+		Name:  "R-PROMPT-OFF-READLOOP",
+		Props: []string{"C16"},
+		Min:   2,
+		Doc: "the signaling read loop is never held up by a question to the user (F80): (sync) nothing that runs synchronously in a callback handed to wsclient.Conn.ReadLoop - the callback, the functions of internal/app it calls, function literals that are not started with `go` - " +
+			"mentions os.Stdin or calls a function of internal/app that takes a *bufio.Reader; (gate) in such a callback every call that sends the manifest accept lies behind a test of an atomic flag that the asking goroutine stores only after its last question - " +
+			"only a loop that goes on reading answers the server's pings: a user slower than --ws-idle-timeout lost the connection at the prompt, and an offer repeated meanwhile must not accept for them",
+		Run: runPromptOffReadLoop,
+	})
+}
+
+func runPromptOffReadLoop(c *Ctx) {
+	p := c.P
+	// callbacks: literals passed to ReadLoop, and the methods they call with the envelope
+	var roots []*FuncInfo
+	for _, f := range p.FuncsIn("internal/app") {
+		if f.Body == nil || strings.HasSuffix(p.Fset.Position(f.Pos()).Filename, "_test.go") {
+			continue
+		}
+		info := f.Info()
+		InspectNoLits(f.Body, func(m ast.Node) bool {
+			call, ok := m.(*ast.CallExpr)
+			if !ok || len(call.Args) != 2 {
+				return true
+			}
+			if fn := Callee(info, call); fn == nil || fn.Name() != "ReadLoop" || fn.Pkg() == nil || !strings.HasSuffix(fn.Pkg().Path(), "internal/wsclient") {
+				return true
+			}
+			if lit, ok := ast.Unparen(call.Args[1]).(*ast.FuncLit); ok {
+				if li := p.LitInfo(lit); li != nil {
+					roots = append(roots, li)
+				}
+			} else if h := p.CalleeInfo(info, &ast.CallExpr{Fun: call.Args[1]}); h != nil {
+				roots = append(roots, h)
+			}
+			return true
+		})
+	}
+	if len(roots) == 0 {
+		c.MissingAnchor("a callback handed to wsclient.Conn.ReadLoop in internal/app")
+		return
+	}
+	takesReader := func(g *FuncInfo) bool {
+		if g == nil || g.Type == nil || g.Type.Params == nil {
+			return false
+		}
+		for _, fl := range g.Type.Params.List {
+			if t := g.Info().TypeOf(fl.Type); t != nil && strings.HasSuffix(t.String(), "bufio.Reader") {
+				return true
+			}
+		}
+		return false
+	}
+	// synchronous closure of a function: its body without go-started literals, plus app callees (depth 3)
+	type finding struct {
+		pos  token.Pos
+		what string
+	}
+	var visit func(f *FuncInfo, depth int, seen map[*FuncInfo]bool, out *[]finding, accepts *[]struct {
+		f    *FuncInfo
+		call *ast.CallExpr
+	})
+	visit = func(f *FuncInfo, depth int, seen map[*FuncInfo]bool, out *[]finding, accepts *[]struct {
+		f    *FuncInfo
+		call *ast.CallExpr
+	}) {
+		if f == nil || f.Body == nil || seen[f] || depth > 3 {
+			return
+		}
+		seen[f] = true
+		info := f.Info()
+		goLits := map[*ast.FuncLit]bool{}
+		ast.Inspect(f.Body, func(m ast.Node) bool {
+			if gs, ok := m.(*ast.GoStmt); ok {
+				if lit, ok := ast.Unparen(gs.Call.Fun).(*ast.FuncLit); ok {
+					goLits[lit] = true
+				}
+			}
+			return true
+		})
+		var walk func(n ast.Node) bool
+		walk = func(m ast.Node) bool {
+			switch x := m.(type) {
+			case *ast.FuncLit:
+				if goLits[x] {
+					return false
+				}
+			case *ast.GoStmt:
+				// the call itself runs elsewhere; its arguments are evaluated here
+				for _, a := range x.Call.Args {
+					ast.Inspect(a, walk)
+				}
+				if lit, ok := ast.Unparen(x.Call.Fun).(*ast.FuncLit); ok {
+					_ = lit
+				}
+				return false
+			case *ast.SelectorExpr:
+				if id, ok := x.X.(*ast.Ident); ok && id.Name == "os" && x.Sel.Name == "Stdin" {
+					if pn, ok := info.Uses[id].(*types.PkgName); ok && pn.Imported().Path() == "os" {
+						*out = append(*out, finding{x.Pos(), f.Name + " mentions os.Stdin"})
+					}
+				}
+			case *ast.CallExpr:
+				g := p.CalleeInfo(info, x)
+				if g != nil && strings.HasPrefix(g.Name, "app.") {
+					if takesReader(g) {
+						*out = append(*out, finding{x.Pos(), f.Name + " calls " + g.Name + ", which reads the user's answer"})
+					}
+					if g.Name == "app.(*snapshotReceiver).sendAccept" || g.Name == "app.(*snapshotReceiver).sendAcceptTo" {
+						*accepts = append(*accepts, struct {
+							f    *FuncInfo
+							call *ast.CallExpr
+						}{f, x})
+					} else {
+						visit(g, depth+1, seen, out, accepts)
+					}
+				}
+			}
+			return true
+		}
+		ast.Inspect(f.Body, walk)
+	}
+	n := 0
+	for _, root := range roots {
+		var found []finding
+		var accepts []struct {
+			f    *FuncInfo
+			call *ast.CallExpr
+		}
+		visit(root, 0, map[*FuncInfo]bool{}, &found, &accepts)
+		n++
+		key := fmt.Sprintf("prompt-off-readloop/sync/%s", root.Name)
+		if len(found) == 0 {
+			c.OK(key, root.Pos(), "nothing that runs synchronously in this read-loop callback waits for the user")
+		} else {
+			for i, fd := range found {
+				c.Bad(fmt.Sprintf("%s#%d", key, i+1), fd.pos, "in the callback of the signaling read loop "+fd.what+": while the user has not answered nothing reads from the socket, the server's pings go unanswered, "+
+					"and after --ws-idle-timeout the server closes the connection - the receiver loses its session at its own first prompt")
+			}
+		}
+		// (gate)
+		for i, ac := range accepts {
+			f := ac.f
+			info := f.Info()
+			spec := &PassSpec{Name: "answered", SkipDefer: true, Vias: []Via{{Cond: func(g *FuncInfo, e ast.Expr) (string, bool, bool) {
+				call, ok := ast.Unparen(e).(*ast.CallExpr)
+				if !ok {
+					return "", false, false
+				}
+				sel, ok := ast.Unparen(call.Fun).(*ast.SelectorExpr)
+				if !ok || sel.Sel.Name != "Load" {
+					return "", false, false
+				}
+				if t := g.Info().TypeOf(sel.X); t == nil || !strings.HasSuffix(t.String(), "atomic.Bool") {
+					return "", false, false
+				}
+				fieldSel, ok := ast.Unparen(sel.X).(*ast.SelectorExpr)
+				if !ok || !flagStoredAfterQuestions(p, takesReader, fieldSel.Sel.Name) {
+					return "", false, false
+				}
+				return "answered", true, true
+			}}}}
+			ref := f.CFG().Find(ac.call.Pos())
+			n++
+			c.Check(ref.Valid() && spec.Passed(f, ref, "answered"), fmt.Sprintf("prompt-off-readloop/gate/%s#%d", f.Name, i+1), ac.call.Pos(), "an offer accepts only once the user has answered",
+				f.Name+" sends the manifest accept from the read loop on a path that has not seen the asking goroutine's `answered` flag set: the host offers again whenever a peer joins, "+
+					"and such an offer would accept the transfer while the user is still at the prompt (or has said no and the process has not exited yet)")
+			_ = info
+		}
+	}
+	if n == 0 {
+		c.Bad("prompt-off-readloop/none", token.NoPos, "no read-loop callback found")
+	}
+}
+
+// flagStoredAfterQuestions: some go-started literal of internal/app calls a reader-taking function and stores true into the
+// atomic field of that name only behind its last such call, and nobody else stores into it.
+func flagStoredAfterQuestions(p *Program, takesReader func(*FuncInfo) bool, field string) bool {
+	stores, good := 0, 0
+	for _, f := range p.FuncsIn("internal/app") {
+		if f.Body == nil || strings.HasSuffix(p.Fset.Position(f.Pos()).Filename, "_test.go") {
+			continue
+		}
+		info := f.Info()
+		var lastQ token.Pos
+		InspectNoLits(f.Body, func(m ast.Node) bool {
+			if call, ok := m.(*ast.CallExpr); ok {
+				if g := p.CalleeInfo(info, call); g != nil && takesReader(g) && call.End() > lastQ {
+					lastQ = call.End()
+				}
+			}
+			return true
+		})
+		InspectNoLits(f.Body, func(m ast.Node) bool {
+			call, ok := m.(*ast.CallExpr)
+			if !ok || len(call.Args) != 1 {
+				return true
+			}
+			sel, ok := ast.Unparen(call.Fun).(*ast.SelectorExpr)
+			if !ok || sel.Sel.Name != "Store" {
+				return true
+			}
+			fs, ok := ast.Unparen(sel.X).(*ast.SelectorExpr)
+			if !ok || fs.Sel.Name != field {
+				return true
+			}
+			stores++
+			if lastQ != token.NoPos && call.Pos() > lastQ && f.Lit != nil && types.ExprString(call.Args[0]) == "true" {
+				// not inside a conditional of its own
+				if len(enclosingIfs(f.Body, call)) == 0 {
+					good++
+				}
+			}
+			return true
+		})
+	}
+	return stores > 0 && stores == good
+}
